@@ -79,7 +79,15 @@ theorem startLe_total (a b : Sec) : (startLe a b || startLe b a) = true := by
   simp only [startLe, Bool.or_eq_true, decide_eq_true_eq]; omega
 
 /-- The overlap verdict for ANY permutation of the sections that is sorted by start address — so the
-    model's choice of `mergeSort` for `sort.Slice` is immaterial. -/
+    model's choice of `mergeSort` for `sort.Slice` is immaterial.
+
+    What is assumed about Go's `sort.Slice(x, less)` (pattern-defeating quicksort, NOT stable) is exactly its
+    documented contract for a strict weak ordering `less`: the result `l` is a rearrangement of the input
+    (`l.Perm secs`) in which no later element is `less` than an earlier one.  Here `less a b` is
+    `a.start < b.start`, so "not `less l[j] l[i]` for i < j" reads `l[i].address ≤ l[j].address` — the
+    hypothesis `hs`.  Ties (equal start addresses) may come out in EITHER order; the lemma covers both, because
+    two non-empty ranges with the same start overlap whichever comes first (`hl`: lengths were checked to be
+    positive by the first loop before the sort is reached). -/
 theorem overlapSorted_perm_invariant (secs l : List Sec) (hp : l.Perm secs)
     (hs : l.Pairwise (fun a b => a.address ≤ b.address)) (hl : ∀ s ∈ secs, 0 < s.length) :
     overlapSorted l = false ↔ secs.Pairwise Disjoint := by
@@ -262,5 +270,76 @@ theorem validateSections_ok_iff (secs : List Sec) : validateSections secs = .ok 
       · intro h
         rw [if_neg (by rw [hU.mpr h.hasUnmeasured]; decide), if_neg (by rw [hS.mpr h.hasSecret]; decide),
           if_neg (by rw [hC.mpr h.hasCpuid]; decide), if_neg (by rw [hov.mpr h.disjoint]; decide)]
+
+/-! ### `sort.Slice` as a parameter -/
+
+/-- go: the `less` function handed to sort.Slice: `checkData[i].start < checkData[j].start` -/
+def startLt (a b : Sec) : Bool := a.address < b.address
+
+/-- The contract of `sort.Slice(x, less)` for a strict weak ordering `less` (package sort: "sorts the slice x
+    given the provided less function … The sort is not guaranteed to be stable"): a rearrangement in which no
+    later element is `less` than an earlier one.  Nothing else is assumed — in particular not which of the
+    admissible rearrangements pdqsort produces, nor anything about elements that compare equal. -/
+structure SortsBy (less : Sec → Sec → Bool) (sort : List Sec → List Sec) : Prop where
+  perm : ∀ l, (sort l).Perm l
+  sorted : ∀ l, (sort l).Pairwise (fun a b => less b a = false)
+
+/-- validateSections with the library sort as a parameter -/
+def validateSectionsWith (sort : List Sec → List Sec) (secs : List Sec) : Outcome Unit :=
+  if secs = [] then .err "no-metadata"
+  else
+    match checkSections secs [] with
+    | .ok seen =>
+      if !seen.contains kindUnmeasured then .err "no-unmeasured"
+      else if !seen.contains kindSecret then .err "no-secret"
+      else if !seen.contains kindCpuid then .err "no-cpuid"
+      else if overlapSorted (sort secs) then .err "overlap"
+      else .ok ()
+    | .err c => .err c
+    | .panic s => .panic s
+
+/-- the model's stand-in meets the contract -/
+theorem mergeSort_sortsBy : SortsBy startLt (fun l => l.mergeSort startLe) where
+  perm l := List.mergeSort_perm l startLe
+  sorted l := (List.pairwise_mergeSort startLe_trans startLe_total l).imp (fun h => by
+    simp only [startLe, startLt, decide_eq_true_eq, decide_eq_false_iff_not] at h ⊢; omega)
+
+/-- **The result of validateSections does not depend on the sorting algorithm**: with ANY function meeting the
+    contract of `sort.Slice` in place of the model's merge sort — stable or not, whatever it does with equal
+    start addresses — validateSections returns the same outcome (same verdict, same error class) on every
+    descriptor list. -/
+theorem validateSectionsWith_eq (sort : List Sec → List Sec) (h : SortsBy startLt sort) (secs : List Sec) :
+    validateSectionsWith sort secs = validateSections secs := by
+  unfold validateSectionsWith validateSections
+  by_cases hnil : secs = []
+  · rw [if_pos hnil, if_pos hnil]
+  · rw [if_neg hnil, if_neg hnil]
+    cases hc : checkSections secs [] with
+    | err c => rfl
+    | panic s => rfl
+    | ok seen =>
+      simp only
+      have hpos : ∀ s ∈ secs, 0 < s.length := by
+        intro s hs
+        have := ((checkSections_ok_iff secs [] seen).mp hc).1 s hs
+        unfold LenOK at this; omega
+      have hs : (sort secs).Pairwise (fun a b => a.address ≤ b.address) :=
+        (h.sorted secs).imp (fun hh => by simp only [startLt, decide_eq_false_iff_not] at hh; omega)
+      have e1 := overlapSorted_perm_invariant secs (sort secs) (h.perm secs) hs hpos
+      have e2 := overlap_mergeSort secs hpos
+      have : overlapSorted (sort secs) = overlapSorted (secs.mergeSort startLe) := by
+        cases h1 : overlapSorted (sort secs) <;> cases h2 : overlapSorted (secs.mergeSort startLe)
+        · rfl
+        · exact absurd (e2.mpr (e1.mp h1)) (by rw [h2]; decide)
+        · exact absurd (e1.mpr (e2.mp h2)) (by rw [h1]; decide)
+        · rfl
+      rw [this]
+
+/-- an unstable sort is covered: reversing each run of equal start addresses of the merge-sorted list still
+    meets the contract (two descriptors with the same start may come out in either order) -/
+theorem tie_order_immaterial (a b : Sec) (hab : a.address = b.address) (ha : 0 < a.length) (hb : 0 < b.length)
+    (rest : List Sec) : overlapSorted (a :: b :: rest) = true ∧ overlapSorted (b :: a :: rest) = true := by
+  simp only [overlapSorted, Bool.or_eq_true, decide_eq_true_eq]
+  constructor <;> left <;> omega
 
 end GceTcb.Proofs.SnpSections
